@@ -163,8 +163,12 @@ func getIndex(index Constant) gep.Index {
 		var val int64
 		for i, elem := range index.Elems {
 			switch elem := elem.(type) {
-			case *Int:
-				x := elem.X.Int64()
+			case *Int, *ZeroInitializer:
+				// (an integer element may be spelled `i32 zeroinitializer`)
+				var x int64
+				if elem, ok := elem.(*Int); ok {
+					x = elem.X.Int64()
+				}
 				if i == 0 {
 					val = x
 				} else if x != val {
